@@ -284,7 +284,7 @@ func runConservation(e *Env, prop string) {
 		} else {
 			e.Probe("reader-backpressure")
 		}
-		weights := []int{6 * len(clientsReady), 2, 2, 4 * len(syncP), 3 * len(cbP)}
+		weights := []int{6 * len(clientsReady), 2, 2, 4 * len(distinctKeys(syncP)), 3 * len(distinctKeys(cbP))}
 		switch e.Weighted("c01", weights) {
 		case 0:
 			c := clientsReady[e.Choose("client", len(clientsReady))]
@@ -316,6 +316,10 @@ func runConservation(e *Env, prop string) {
 				if len(syncP)+len(cbP) > 0 {
 					e.Probe("delivery-while-stalled")
 					e.Overlap = true
+					// a worker released later finds both its queue and a flush command ready: Go's select
+					// decides whether this datagram lands in that flush or the next (DESIGN 8.1); the
+					// oracle accepts both, the trace cannot be the same
+					e.Unstable("datagram-in-flight-across-a-flush")
 				}
 				w.Send(c, dg.payload)
 				now := time.Now().UnixNano()
@@ -342,16 +346,28 @@ func runConservation(e *Env, prop string) {
 			e.Event("to-tick %v", d)
 			time.Sleep(d)
 		case 3:
-			p := syncP[e.Choose("rel-sync", len(syncP))]
+			// shards whose flushed content is identical cannot be told apart by content; which of them
+			// arrived first is the runtime's business, so they are released together
+			keys := distinctKeys(syncP)
+			k := keys[e.Choose("rel-sync", len(keys))]
 			e.Fault("shard-stall")
-			e.Event("release sync %s", p.Key)
-			be.SyncGate.Release(p, nil)
+			e.Event("release sync %s", k)
+			for _, p := range syncP {
+				if p.Key == k {
+					be.SyncGate.Release(p, nil)
+				}
+			}
 		case 4:
-			p := cbP[e.Choose("rel-cb", len(cbP))]
+			keys := distinctKeys(cbP)
+			k := keys[e.Choose("rel-cb", len(keys))]
 			e.Fault("callback-delay")
 			e.Probe("callback-delayed")
-			e.Event("release cb %s", p.Key)
-			be.CbGate.Release(p, nil)
+			e.Event("release cb %s", k)
+			for _, p := range cbP {
+				if p.Key == k {
+					be.CbGate.Release(p, nil)
+				}
+			}
 		}
 	}
 
@@ -418,6 +434,16 @@ func runConservation(e *Env, prop string) {
 	}
 	e.Note["flushes"] = ft.NFlushes
 	e.Note["datapoints"] = id
+}
+
+func distinctKeys(ps []*Parked) []string {
+	var out []string
+	for _, p := range ps { // ps is sorted by key
+		if len(out) == 0 || out[len(out)-1] != p.Key {
+			out = append(out, p.Key)
+		}
+	}
+	return out
 }
 
 func keysOf(m map[string]struct{}) []string {
